@@ -59,66 +59,110 @@ def opts():
                               'mag_pad_opts': {'mode': 'median', 'stat_length': 1}})
 
 
+def ident(x):
+    return x
+
+
+def freq_of(x):
+    return np.abs(x) * 0.4          # some values above the last bin edge (0.5): exercises the out-of-range paths
+
+
+def amp_of(x):
+    return np.abs(x) + 1.0
+
+
+def env_of(x):
+    return np.abs(x) + 0.1
+
+
 def entries():
+    """Entry table.  `prep` maps the raw signal to the vector that is laid out and handed to the library UNCHANGED, so
+    that the array whose bytes are compared before / after is the very array the routine received."""
     import emd
     S, SP, CY, U = emd.sift, emd.spectra, emd.cycles, emd.utils
     E = []
 
-    def add(name, fn, acc, rej=(), mism=None, optdicts=None):
-        E.append(dict(name=name, fn=fn, acc=acc, rej=rej, mism=mism, optdicts=optdicts))
+    def add(name, fn, acc, rej=(), mism=None, optdicts=None, prep=ident):
+        E.append(dict(name=name, fn=fn, acc=acc, rej=rej, mism=mism, optdicts=optdicts, prep=prep))
+
+    def two(f):
+        return lambda: [f(), {}]
     # single-signal sift routines: fn(primary array, option dicts) -> result
-    add('sift', lambda a, o: S.sift(a, max_imfs=3, **o), SIFT_ACC, SIFT_REJ, optdicts=opts)
-    add('get_next_imf', lambda a, o: S.get_next_imf(a, envelope_opts=o['envelope_opts'], extrema_opts=o['extrema_opts'], **o['imf_opts']),
-        SIFT_ACC, SIFT_REJ, optdicts=opts)
-    add('get_next_imf_mask', lambda a, o: S.get_next_imf_mask(a, 0.2, 0.5, nphases=2, **o), SIFT_ACC, SIFT_REJ, optdicts=opts)
-    add('mask_sift', lambda a, o: S.mask_sift(a, max_imfs=2, nphases=2, **o), SIFT_ACC, SIFT_REJ, optdicts=opts)
-    add('ensemble_sift', lambda a, o: S.ensemble_sift(a, nensembles=2, max_imfs=2, **o), SIFT_ACC, SIFT_REJ, optdicts=opts)
-    add('complete_ensemble_sift', lambda a, o: S.complete_ensemble_sift(a, nensembles=2, max_imfs=2, **o), SIFT_ACC, SIFT_REJ, optdicts=opts)
+    add('sift', lambda a, o: S.sift(a, max_imfs=3, **o), SIFT_ACC, SIFT_REJ, optdicts=two(opts))
+    add('get_next_imf', lambda a, o: S.get_next_imf(a, envelope_opts=o.get('envelope_opts'), extrema_opts=o.get('extrema_opts'), **o.get('imf_opts', {})),
+        SIFT_ACC, SIFT_REJ, optdicts=two(opts))
+    add('get_next_imf_mask', lambda a, o: S.get_next_imf_mask(a, 0.2, 0.5, nphases=2, **o), SIFT_ACC, SIFT_REJ, optdicts=two(opts))
+    add('mask_sift', lambda a, o: S.mask_sift(a, max_imfs=2, nphases=2, **o), SIFT_ACC, SIFT_REJ,
+        optdicts=lambda: [opts(), {}, dict(mask_freqs=np.array([0.3, 0.1]), mask_amp=np.array([1.0, 0.5]), mask_amp_mode='ratio_sig')])
+    add('ensemble_sift', lambda a, o: S.ensemble_sift(a, nensembles=2, max_imfs=2, **o), SIFT_ACC, SIFT_REJ,
+        optdicts=lambda: [opts(), dict(noise_mode='flip')])
+    add('complete_ensemble_sift', lambda a, o: S.complete_ensemble_sift(a, nensembles=2, max_imfs=2, **o), SIFT_ACC, SIFT_REJ,
+        optdicts=lambda: [opts(), dict(noise_mode='flip')])
     # second layer: IA is [samples x imfs]; a vector is one IMF
-    add('sift_second_layer', lambda a, o: S.sift_second_layer(np.abs(a) + 0.1, sift_args=o), VC,
-        optdicts=lambda: dict(max_imfs=2, imf_opts={'sd_thresh': 0.2}, extrema_opts={'pad_width': 1, 'mag_pad_opts': {'mode': 'median', 'stat_length': 1}}))
-    add('mask_sift_second_layer', lambda a, o: S.mask_sift_second_layer(np.abs(a) + 0.1, np.array([0.2, 0.1, 0.05]), sift_args=o), VC,
-        optdicts=lambda: dict(nphases=2, imf_opts={'sd_thresh': 0.2}))
-    add('mask_sift_second_layer:noargs', lambda a, o: S.mask_sift_second_layer(np.abs(a) + 0.1, np.array([0.2, 0.1, 0.05])), VC)
+    add('sift_second_layer', lambda a, o: S.sift_second_layer(a, sift_args=o), VC, prep=env_of,
+        optdicts=lambda: [dict(max_imfs=2, imf_opts={'sd_thresh': 0.2}, extrema_opts={'pad_width': 1, 'mag_pad_opts': {'mode': 'median', 'stat_length': 1}}),
+                          dict(imf_opts={'sd_thresh': 0.3})])
+    add('mask_sift_second_layer', lambda a, o: S.mask_sift_second_layer(a, o.pop('__freqs__'), sift_args=o.pop('__args__')), VC, prep=env_of,
+        optdicts=lambda: [{'__freqs__': np.array([0.2, 0.1, 0.05]), '__args__': dict(nphases=2, imf_opts={'sd_thresh': 0.2})},
+                          {'__freqs__': np.array([0.2, 0.1, 0.05]), '__args__': None}])
     # envelope / extrema routines
     add('get_padded_extrema', lambda a, o: S.get_padded_extrema(a, **o), VC,
-        optdicts=lambda: dict(pad_width=2, loc_pad_opts={'mode': 'reflect', 'reflect_type': 'odd'}, mag_pad_opts={'mode': 'median', 'stat_length': 1}))
-    add('interp_envelope', lambda a, o: S.interp_envelope(a, mode='upper', extrema_opts=o), VC,
-        optdicts=lambda: dict(pad_width=2, mag_pad_opts={'mode': 'median', 'stat_length': 1}))
+        optdicts=lambda: [dict(pad_width=2, loc_pad_opts={'mode': 'reflect', 'reflect_type': 'odd'}, mag_pad_opts={'mode': 'median', 'stat_length': 1}),
+                          dict(pad_width=0, mode='troughs'), dict(parabolic_extrema=True, mode='abs_peaks')])
+    add('interp_envelope', lambda a, o: S.interp_envelope(a, **o), VC,
+        optdicts=lambda: [dict(mode='upper', extrema_opts=dict(pad_width=2, mag_pad_opts={'mode': 'median', 'stat_length': 1})),
+                          dict(mode='lower', interp_method='pchip'), dict(mode='combined', ret_extrema=True)])
     # transforms
     for m in ('hilbert', 'nht', 'quad'):
-        add('frequency_transform:%s' % m, (lambda m_: lambda a, o: SP.frequency_transform(a, 100.0, m_))(m), VC)
-    add('amplitude_normalise', lambda a, o: U.amplitude_normalise(a), VC)
+        add('frequency_transform:%s' % m, (lambda m_: lambda a, o: SP.frequency_transform(a, 100.0, m_, **o))(m), VC,
+            optdicts=lambda: [{}, dict(smooth_phase=None)])
+    add('amplitude_normalise', lambda a, o: U.amplitude_normalise(a, **o), VC,
+        optdicts=lambda: [{}, dict(max_iters=1), dict(clip=True, interp_method='splrep', max_iters=2), dict(thresh=1e-3, max_iters=8)])
     # spectra (second argument must match)
     edges = np.linspace(0, 0.5, 6)
-    add('hilberthuang', lambda a, o, b=None: SP.hilberthuang(np.abs(a) * 0.4, np.abs(a) + 1 if b is None else b, edges), VC,
-        mism=lambda x: [np.abs(x[:-1]) + 1, np.abs(np.r_[x, x[:2]]) + 1])
-    add('hilberthuang_1d', lambda a, o, b=None: SP.hilberthuang_1d(np.abs(a) * 0.4, np.abs(a) + 1 if b is None else b, edges), VC,
-        mism=lambda x: [(np.abs(x[:-1]) + 1)[:, None], (np.abs(np.r_[x, x[:2]]) + 1)[:, None]])
-    add('holospectrum', lambda a, o, b=None: SP.holospectrum(np.abs(a) * 0.4, (np.abs(a).reshape(len(a), 1, 1) * 0.2),
-                                                            (np.abs(a).reshape(len(a), 1, 1) + 1) if b is None else b, edges, edges), VC,
-        mism=lambda x: [np.abs(x[:-1]).reshape(-1, 1, 1) + 1, np.abs(np.r_[x, x[:2]]).reshape(-1, 1, 1) + 1])
+    add('hilberthuang', lambda a, o, b=None: SP.hilberthuang(a, b, edges.copy(), **o), VC, prep=freq_of,
+        mism=lambda x: [amp_of(x)[:-1], amp_of(np.r_[x, x[:2]])], optdicts=lambda: [{}, dict(mode='amplitude', return_sparse=True)])
+    add('hilberthuang_1d', lambda a, o, b=None: SP.hilberthuang_1d(a, b, edges.copy(), **o), VC, prep=freq_of,
+        mism=lambda x: [amp_of(x)[:-1], amp_of(np.r_[x, x[:2]])], optdicts=lambda: [{}, dict(mode='amplitude')])
+    add('holospectrum', lambda a, o, b=None: SP.holospectrum(a, freq_of(np.asarray(b)) * 0.5, b, edges.copy(), edges.copy(), **o), VC, prep=freq_of,
+        mism=lambda x: [amp_of(x)[:-1].reshape(-1, 1, 1), amp_of(np.r_[x, x[:2]]).reshape(-1, 1, 1)],
+        optdicts=lambda: [{}, dict(squash_time=False, mode='amplitude')])
     # cycle routines operate on a phase series
-    add('get_cycle_vector', lambda a, o: CY.get_cycle_vector(phase_of(a[:, 0] if a.ndim > 1 else a).reshape(a.shape), return_good=False), VC)
-    add('get_cycle_vector:mask', lambda a, o, b=None: CY.get_cycle_vector(phase_of(a[:, 0] if a.ndim > 1 else a).reshape(a.shape),
-                                                                        return_good=True, mask=(np.ones(a.shape, dtype=bool) if b is None else b)), VC,
+    add('get_cycle_vector', lambda a, o: CY.get_cycle_vector(a, **o), VC, prep=phase_of,
+        optdicts=lambda: [dict(return_good=False), dict(return_good=True, phase_edge=np.pi / 4)])
+    add('get_cycle_vector:mask', lambda a, o, b=None: CY.get_cycle_vector(a, return_good=True, mask=b), VC, prep=phase_of,
         mism=lambda x: [np.ones(len(x) - 1, dtype=bool), np.ones(len(x) + 2, dtype=bool)])
-    labels = lambda n: (np.arange(n) // 5) % 6  # noqa: E731
-    add('get_cycle_stat', lambda a, o, b=None: CY.get_cycle_stat(np.repeat(np.arange(len(a) // 4 + 1), 4)[:len(a)] if b is None else b, a, func=np.max), VC,
-        mism=lambda x: [np.repeat(np.arange(len(x)), 4)[:len(x) - 1], np.repeat(np.arange(len(x)), 4)[:len(x) + 2]])
-    add('phase_align', lambda a, o, b=None: CY.phase_align(phase_of(a[:, 0] if a.ndim > 1 else a).reshape(a.shape), a if b is None else b, npoints=8), VC,
+    add('get_cycle_stat', lambda a, o, b=None: CY.get_cycle_stat(b, a, func=np.max, **o), VC,
+        mism=lambda x: [np.repeat(np.arange(len(x)), 4)[:len(x) - 1], np.repeat(np.arange(len(x)), 4)[:len(x) + 2]],
+        optdicts=lambda: [{}, dict(out='samples')])
+    add('phase_align', lambda a, o, b=None: CY.phase_align(a, b, npoints=8, **o), VC, prep=phase_of,
+        mism=lambda x: [x[:-1].copy(), np.r_[x, x[:2]]], optdicts=lambda: [{}, dict(interp_kind='nearest')])
+    add('bin_by_phase', lambda a, o, b=None: CY.bin_by_phase(a, b, nbins=6)[0], VC, prep=phase_of,
         mism=lambda x: [x[:-1].copy(), np.r_[x, x[:2]]])
-    add('bin_by_phase', lambda a, o, b=None: CY.bin_by_phase(phase_of(a[:, 0] if a.ndim > 1 else a).reshape(a.shape),
-                                                             (a[:, 0] if a.ndim > 1 else a) if b is None else b, nbins=6)[0], VC,
-        mism=lambda x: [x[:-1].copy(), np.r_[x, x[:2]]])
-    add('Cycles', lambda a, o: CY.Cycles(phase_of(a[:, 0] if a.ndim > 1 else a).reshape(a.shape), compute_timings=True).get_metric_dataframe().to_numpy(),
-        VC, rej=('n2',))
+    add('Cycles', lambda a, o: CY.Cycles(a, compute_timings=True, **o).get_metric_dataframe().to_numpy(), VC, rej=('n2',), prep=phase_of,
+        optdicts=lambda: [{}, dict(use_cache=False, phase_edge=np.pi / 4)])
     return E
+
+
+def second_arg(name, x, kind):
+    """The matching second array for the multi-array routines (laid out like the primary where the contract allows)."""
+    n = len(x)
+    if name in ('hilberthuang', 'hilberthuang_1d'):
+        return lay(amp_of(x), kind)
+    if name == 'holospectrum':
+        return amp_of(x).reshape(n, 1, 1)
+    if name == 'get_cycle_vector:mask':
+        return lay(np.ones(n), kind).astype(bool)
+    if name == 'get_cycle_stat':
+        return np.repeat(np.arange(n // 4 + 1), 4)[:n]
+    if name in ('phase_align', 'bin_by_phase'):
+        return lay(x, kind) if name == 'phase_align' else x.copy()
+    return None
 
 
 def entry_names():
     return ['sift', 'get_next_imf', 'get_next_imf_mask', 'mask_sift', 'ensemble_sift', 'complete_ensemble_sift',
-            'sift_second_layer', 'mask_sift_second_layer', 'mask_sift_second_layer:noargs', 'get_padded_extrema',
+            'sift_second_layer', 'mask_sift_second_layer', 'get_padded_extrema',
             'interp_envelope', 'frequency_transform:hilbert', 'frequency_transform:nht', 'frequency_transform:quad',
             'amplitude_normalise', 'hilberthuang', 'hilberthuang_1d', 'holospectrum', 'get_cycle_vector',
             'get_cycle_vector:mask', 'get_cycle_stat', 'phase_align', 'bin_by_phase', 'Cycles']
@@ -171,6 +215,7 @@ def check_case(case):
     name, si, seed = case
     ent = [e for e in entries() if e['name'] == name][0]
     x = signals.fb_signal(SIGNALS[si], seed)
+    prim = ent['prep'](x)
     viols = []
     trans = 0
     tag = '%s on F_B%r' % (name, SIGNALS[si])
@@ -182,44 +227,59 @@ def check_case(case):
                 return ent['fn'](arr, o)
             return ent['fn'](arr, o, b)
 
-    ref = None
+    optsets = ent['optdicts']() if ent['optdicts'] else [{}]
     with forkpool.installed(forkpool.SerialMP()):
-        for kind in ent['acc']:
-            for ro in (False, True):
-                arr = lay(x, kind)
-                before = arr.copy()
-                o = ent['optdicts']() if ent['optdicts'] else {}
-                o_before = copy.deepcopy(o)
-                if ro:
-                    arr.setflags(write=False)
-                what = '%s layout=%s%s' % (tag, arr.shape, ' read-only' if ro else '')
-                try:
-                    r1 = call(arr, o)
-                    r2 = call(arr, o)
-                except guard.CaseTimeout:
-                    viols.append(('accepted:timeout', '%s: no result within %ss' % (what, CALL_TIMEOUT)))
-                    continue
-                except Exception as e:
-                    k_ = 'accepted:readonly-raise' if ro else 'accepted:raise:%s' % ('vector' if kind == 'v' else kind)
-                    viols.append((k_, '%s raised %r' % (what, e)))
-                    continue
-                trans += 2
-                if not np.array_equal(arr, before):
-                    viols.append(('input-modified', '%s: the input array was changed' % what))
-                if not deep_equal(o, o_before):
-                    viols.append(('options-modified', '%s: option dictionaries changed from %r to %r' % (what, o_before, o)))
-                if not same(r1, r2):
-                    viols.append(('not-repeatable', '%s: two identical calls returned different results' % what))
-                if ref is None:
-                    ref = r1
-                elif not same(ref, r1):
-                    viols.append(('layout-sensitive', '%s: result differs from layout %s' % (what, ent['acc'][0])))
+        for oi in range(len(optsets)):
+            ref = None
+            for kind in ent['acc']:
+                for ro in (False, True):
+                    arr = lay(prim, kind)
+                    before = arr.copy()
+                    b = second_arg(name, x, kind)
+                    b_before = None if b is None else b.copy()
+                    o_before = copy.deepcopy((ent['optdicts']() if ent['optdicts'] else [{}])[oi])
+                    if ro:
+                        arr.setflags(write=False)
+                        if b is not None:
+                            b.setflags(write=False)
+                    what = '%s options#%d layout=%s%s' % (tag, oi, arr.shape, ' read-only' if ro else '')
+                    results = []
+                    try:
+                        for rep_i in range(2):
+                            o = copy.deepcopy(o_before)
+                            keep = o        # the dictionary object the routine receives
+                            inner = o.get('__args__') if '__args__' in o else None
+                            inner_before = copy.deepcopy(inner)
+                            results.append(call(arr, o, b))
+                            if '__args__' in o_before:
+                                if not deep_equal(inner, inner_before):
+                                    viols.append(('options-modified', '%s: sift_args changed from %r to %r' % (what, inner_before, inner)))
+                            elif not deep_equal(keep, o_before):
+                                viols.append(('options-modified', '%s: option dictionaries changed from %r to %r' % (what, o_before, keep)))
+                    except guard.CaseTimeout:
+                        viols.append(('accepted:timeout', '%s: no result within %ss' % (what, CALL_TIMEOUT)))
+                        continue
+                    except Exception as e:
+                        k_ = 'accepted:readonly-raise' if ro else 'accepted:raise:%s' % ('vector' if kind == 'v' else kind)
+                        viols.append((k_, '%s raised %r' % (what, e)))
+                        continue
+                    trans += 2
+                    if not np.array_equal(arr, before, equal_nan=True):
+                        viols.append(('input-modified', '%s: the input array was changed' % what))
+                    if b is not None and not np.array_equal(b, b_before):
+                        viols.append(('input-modified:second', '%s: the second input array was changed' % what))
+                    if not same(results[0], results[1]):
+                        viols.append(('not-repeatable', '%s: two identical calls returned different results' % what))
+                    if ref is None:
+                        ref = results[0]
+                    elif not same(ref, results[0]):
+                        viols.append(('layout-sensitive', '%s: result differs from layout %s' % (what, ent['acc'][0])))
         for kind in ent['rej']:
-            arr = lay(x, kind)
+            arr = lay(prim, kind)
             what = '%s layout=%s' % (tag, arr.shape)
-            o = ent['optdicts']() if ent['optdicts'] else {}
+            o = copy.deepcopy(optsets[0])
             try:
-                call(arr, o)
+                call(arr, o, second_arg(name, x, 'v'))
                 viols.append(('rejected:processed:%s' % kind, '%s: multi-column input was processed instead of rejected' % what))
             except guard.CaseTimeout:
                 viols.append(('rejected:hang:%s' % kind, '%s: call did not return within %ss' % (what, CALL_TIMEOUT)))
@@ -230,7 +290,7 @@ def check_case(case):
             for b in ent['mism'](x):
                 what = '%s second argument length %d vs %d' % (tag, len(b), len(x))
                 try:
-                    call(lay(x, 'c') if name in ('hilberthuang_1d',) else lay(x, 'v'), {}, b)
+                    call(lay(prim, 'v'), copy.deepcopy(optsets[0]), b)
                     viols.append(('mismatch:processed', '%s: mismatched lengths were processed' % what))
                 except guard.CaseTimeout:
                     viols.append(('mismatch:hang', what))
